@@ -102,6 +102,11 @@ func TestC24(t *testing.T) {
 				t.Fatalf("%s", msg)
 			}
 			col.Class("listing")
+			if col.WantSample() {
+				col.Sample(desc)
+			} else {
+				col.SkipSample()
+			}
 			if lines < 5 || cur > lines*2/3 {
 				col.Nontrivial(desc)
 			}
@@ -121,6 +126,11 @@ func TestC24(t *testing.T) {
 				t.Fatalf("%s", msg)
 			}
 			col.Class(fmt.Sprintf("registers/ip=%v", ip))
+			if col.WantSample() {
+				col.Sample(desc)
+			} else {
+				col.SkipSample()
+			}
 			if n >= 3 && ip {
 				col.Nontrivial(desc)
 			}
@@ -146,6 +156,11 @@ func TestC24(t *testing.T) {
 				t.Fatalf("%s", msg)
 			}
 			col.Class("memory")
+			if col.WantSample() {
+				col.Sample(desc)
+			} else {
+				col.SkipSample()
+			}
 			if len(byteModel) > 0 {
 				col.Nontrivial(desc)
 			}
@@ -174,6 +189,11 @@ func TestC24(t *testing.T) {
 				t.Fatalf("%s", msg)
 			}
 			col.Class("emulation")
+			if col.WantSample() {
+				col.Sample(desc)
+			} else {
+				col.SkipSample()
+			}
 			if steps >= 2 {
 				col.Nontrivial(desc)
 			}
